@@ -229,6 +229,28 @@ Theorem C13_nan_is_greatest : forall b, wf_num b ->
   num_eq (VFloat S754_nan) (VFloat S754_nan) = true.
 Proof. exact nan_is_greatest. Qed.
 
+(* explicit clause for the zeros: -0.0, +0.0 and the integer 0 in any tag are equal and NEITHER
+   IS BELOW THE OTHER — for each of the six operators the answer is the one for equal operands,
+   in every pairing and operand order *)
+Theorem C13_signed_zeros_equal_and_unordered : forall sa sb r op,
+  vm_cmp op (VFloat (S754_zero sa)) (VFloat (S754_zero sb)) = ROk (VBool (spec_test op Eq)) /\
+  vm_cmp op (VFloat (S754_zero sa)) (VInt r 0) = ROk (VBool (spec_test op Eq)) /\
+  vm_cmp op (VInt r 0) (VFloat (S754_zero sa)) = ROk (VBool (spec_test op Eq)) /\
+  num_partial_cmp (VFloat (S754_zero sa)) (VFloat (S754_zero sb)) = Some Eq /\
+  num_eq (VFloat (S754_zero sa)) (VFloat (S754_zero sb)) = true.
+Proof. exact signed_zero_clause. Qed.
+
+(* explicit clause for NaN: equal to itself and ordered after every other number (integers of
+   every width, every double, both infinities), on either side, for each of the six operators.
+   spec_float has ONE NaN: sign bit and payload do not exist in the model, so the statement is
+   about NaNs of either sign and any payload; that the code really does not look at them is what
+   the correspondence run checks with eight NaN bit patterns (quiet/signalling, both signs). *)
+Theorem C13_nan_equal_to_itself_and_last : forall b op, wf_num b -> b <> VFloat S754_nan ->
+  vm_cmp op (VFloat S754_nan) b = ROk (VBool (spec_test op Gt)) /\
+  vm_cmp op b (VFloat S754_nan) = ROk (VBool (spec_test op Lt)) /\
+  vm_cmp op (VFloat S754_nan) (VFloat S754_nan) = ROk (VBool (spec_test op Eq)).
+Proof. exact nan_clause. Qed.
+
 Theorem C13_zeros_equal : forall r,
   num_eq (VFloat (S754_zero true)) (VFloat (S754_zero false)) = true /\
   num_eq (VFloat (S754_zero true)) (VInt r 0) = true /\
@@ -284,4 +306,11 @@ Proof. vm_compute. auto. Qed.
 Example C13_ex_wf_satisfiable :
   wf_num (VInt U128 u128_max) /\ wf_num (VInt I128 i128_min) /\ wf_num (VFloat S754_nan) /\
   wf_num (VFloat (S754_finite true 1 (-1074))) /\ wf_num (VFloat (S754_finite false 9007199254740991 971)).
+Proof. vm_compute. auto. Qed.
+
+Example C13_ex_zero_not_below_zero :
+  vm_cmp OpLt (VFloat (S754_zero true)) (VFloat (S754_zero false)) = ROk (VBool false) /\
+  vm_cmp OpGe (VFloat (S754_zero true)) (VFloat (S754_zero false)) = ROk (VBool true) /\
+  vm_cmp OpGt (VFloat S754_nan) (VFloat (S754_infinity false)) = ROk (VBool true) /\
+  vm_cmp OpLe (VFloat S754_nan) (VFloat S754_nan) = ROk (VBool true).
 Proof. vm_compute. auto. Qed.
